@@ -1255,6 +1255,8 @@ void Logic::dumpHeaderToFile(std::ostream & dump_out) const {
     vec<SymRef> const & symbols = sym_store.getSymbols();
     for (SymRef s : symbols) {
         if (s == getSym_true() || s == getSym_false()) continue;
+        // Symbols of the solver itself (per-sort ite, the not of Boolean arguments, abstract values) are not declarations of the query
+        if (isIte(s) or getSymName(s) == tk_uf_not or not isKnownToUser(getSymName(s))) continue;
         if (isConstant(s)) {
             if (isBuiltinConstant(s)) continue;
             dump_out << "(declare-const ";
